@@ -103,6 +103,7 @@ structure GR where
   mainInFire : Bool := false
   code : Option Int := none
   inCycle : Bool := false
+  allowSame : Bool := false      -- mode samedata: dependencies with condition = target are generated on purpose
 
 open Babylon.Anyflow.Graph
 
@@ -164,10 +165,10 @@ def graphObs (r : GR) (o : Obs) : Except String GR :=
       match r.p with
       | some p =>
         match stepEvent p r.s .reset with
-        | some s' => .ok { s := s', inCycle := true }
+        | some s' => .ok { s := s', inCycle := true, allowSame := r.allowSame }
         | none => .error "reset: the model does not accept `reset` at the end of the previous cycle (run not completely finished)"
-      | none => .ok { inCycle := true }
-    else .ok { inCycle := true }
+      | none => .ok { inCycle := true, allowSame := r.allowSame }
+    else .ok { inCycle := true, allowSame := r.allowSame }
   | some (.ev ["graph", "ndata", n]) => .ok { r with nData := n.toNat?.getD 0 }
   | some (.ev ("graph" :: "vertex" :: _ :: "kind" :: _ :: "emits" :: rest)) =>
     let (es, ds) := splitAt rest "deps"
@@ -182,7 +183,9 @@ def graphObs (r : GR) (o : Obs) : Except String GR :=
     match ts.mapM String.toNat? with
     | some ts =>
       let p := mkParams r ts
-      if wfB p then .ok { r with p := some p } else .error "the generated graph is not well-formed (topological numbering / unique producers / distinct targets)"
+      if !wfB p then .error "the generated graph is not well-formed (topological numbering / unique producers / distinct targets)"
+      else if !r.allowSame && !noSameDataB p then .error "a dependency's condition is its own target (outside WF; only mode samedata generates these)"
+      else .ok { r with p := some p }
     | none => .error "bad targets line"
   | some (.ev ["publish", d, x]) =>
     match d.toNat?, parseOV x with
@@ -292,7 +295,7 @@ inductive R
   | graph (r : GR)
 
 def initR (hdr : List String) : R :=
-  if hdr.contains "mode=dep" then .dep {} else .graph {}
+  if hdr.contains "mode=dep" then .dep {} else .graph { allowSame := hdr.contains "mode=samedata" }
 
 def stepObs (r : R) (o : Obs) : Except String R :=
   match r with
